@@ -64,15 +64,14 @@ func (a *Aggregate) Aggregate(message string) error {
 		set.Samples += samples
 	}
 
-	// Merge data from group into global group.
-	isMerged, err := a.globalGroup.MergeNoblock(a.query, a.group)
-	if err != nil {
+	// Merge data from group into global group. Wait for the global group to be available:
+	// with a non-blocking merge the last message of a server was never merged when
+	// another server or the result reporter held the global group at that moment.
+	if err := a.globalGroup.Merge(a.query, a.group); err != nil {
 		panic(err)
 	}
-	if isMerged {
-		// Re-init local group (make it empty again).
-		a.group.InitSet()
-	}
+	// Re-init local group (make it empty again).
+	a.group.InitSet()
 	return nil
 }
 
